@@ -422,7 +422,7 @@ func rejectEdgesOf(fn *ssa.Function, ifs []*ssa.If, use ssa.Instruction) []an.Ed
 				continue
 			}
 			seen[e] = true
-			q := &an.PathQ{Fn: fn, StartEdges: []an.Edge{e}, NoFold: true, Sink: func(in ssa.Instruction, _ *an.PathState) bool { return in == use }}
+			q := &an.PathQ{Fn: fn, StartEdges: []an.Edge{e}, Sink: func(in ssa.Instruction, _ *an.PathState) bool { return in == use }}
 			if _, f := q.Find(); !f {
 				rej = append(rej, e)
 			}
